@@ -383,6 +383,105 @@ fn run_classgroup(n: Uint, threads: usize, dbl: bool, outdir: PathBuf, deadline:
     })
 }
 
+/// The same run through the real `ymcls` program (built from the tree under test without the verification cfg):
+/// the group it prints on stdout is parsed back into a ClassGroup (h = product of the printed invariants), so that
+/// the command-line layer is judged by the same trace specification; the files it writes are read as usual.
+fn run_classgroup_cli(bin: &str, n: Uint, threads: usize, dbl: bool, outdir: PathBuf, deadline: f64) -> Result<RunOut, Value> {
+    use std::io::Read;
+    use std::process::{Command, Stdio};
+    let _ = std::fs::create_dir_all(&outdir);
+    let mut argv: Vec<String> = vec!["--verbose".into(), "silent".into()];
+    if threads > 1 {
+        argv.extend(["--threads".to_string(), threads.to_string()]);
+    }
+    if dbl {
+        argv.extend(["--use-double".to_string(), "true".to_string()]);
+    }
+    argv.push(format!("-{}", n));
+    argv.push(outdir.to_string_lossy().to_string());
+    let mut child = Command::new(bin)
+        .args(&argv)
+        .env("RUST_BACKTRACE", "0")
+        .stdin(Stdio::null())
+        .stdout(Stdio::piped())
+        .stderr(Stdio::piped())
+        .spawn()
+        .unwrap_or_else(|e| panic!("cannot run {}: {}", bin, e));
+    let mut so = child.stdout.take().unwrap();
+    let mut se = child.stderr.take().unwrap();
+    let t1 = std::thread::spawn(move || {
+        let mut s = Vec::new();
+        let _ = so.read_to_end(&mut s);
+        String::from_utf8_lossy(&s).to_string()
+    });
+    let t2 = std::thread::spawn(move || {
+        let mut s = Vec::new();
+        let _ = se.read_to_end(&mut s);
+        String::from_utf8_lossy(&s).to_string()
+    });
+    let t0 = std::time::Instant::now();
+    let status = loop {
+        match child.try_wait() {
+            Ok(Some(st)) => break st,
+            Ok(None) => {
+                if t0.elapsed().as_secs_f64() > deadline {
+                    let _ = child.kill();
+                    let _ = child.wait();
+                    return Err(json!({"outcome": "timeout", "deadline_s": deadline}));
+                }
+                std::thread::sleep(std::time::Duration::from_millis(2));
+            }
+            Err(e) => panic!("wait: {}", e),
+        }
+    };
+    let stdout = t1.join().unwrap();
+    let stderr = t2.join().unwrap();
+    if !status.success() {
+        let (mut loc, mut msg) = (String::new(), String::new());
+        if let Some(i) = stderr.find("panicked at ") {
+            let rest = &stderr[i + 12..];
+            loc = rest.lines().next().unwrap_or("").trim_end_matches(':').to_string();
+            msg = rest.lines().nth(1).unwrap_or("").to_string();
+        }
+        return Ok(RunOut { g: Err(json!({"outcome": "panic", "msg": msg, "loc": loc, "status": status.code()})), events: vec![] });
+    }
+    if stdout.trim().is_empty() {
+        return Ok(RunOut { g: Ok(None), events: vec![] });
+    }
+    // "G inv1 inv2 ..." then "p c1 c2 ..." lines; anything else makes the output unreadable: reported as a
+    // group that cannot be right (h = 0)
+    let mut invariants: Vec<u128> = vec![];
+    let mut gens: Vec<(u32, Vec<u128>)> = vec![];
+    let mut bad = false;
+    for (li, line) in stdout.lines().enumerate() {
+        let mut it = line.split_whitespace();
+        if li == 0 {
+            bad |= it.next() != Some("G");
+            for t in it {
+                match t.parse::<u128>() {
+                    Ok(x) => invariants.push(x),
+                    Err(_) => bad = true,
+                }
+            }
+        } else {
+            let p = it.next().and_then(|t| t.parse::<u32>().ok());
+            let v: Option<Vec<u128>> = it.map(|t| t.parse::<u128>().ok()).collect();
+            match (p, v) {
+                (Some(p), Some(v)) => gens.push((p, v)),
+                _ => bad = true,
+            }
+        }
+    }
+    let mut h = Uint::ONE;
+    for &x in &invariants {
+        h = h * Uint::from_digit(x as u64) + ((h * Uint::from_digit((x >> 64) as u64)) << 64);
+    }
+    if bad {
+        h = Uint::ZERO;
+    }
+    Ok(RunOut { g: Ok(Some(ClassGroup { h, invariants, gens })), events: vec![] })
+}
+
 fn signed_digits(s: &str) -> Value {
     let (neg, mag) = match s.strip_prefix('-') {
         Some(m) => (true, m),
@@ -472,6 +571,7 @@ pub fn run(args: &Args) -> i32 {
     let xcheck = arg_u64(args, "xcheck", 0);
     let npow = arg_u64(args, "npow", 2);
     let only = args.get("only").cloned();
+    let ymcls = arg_str(args, "ymcls", "").to_string();
     let shapes = read_ndjson(arg_str(args, "shapes", "shapes.ndjson"));
     let scratch = PathBuf::from(arg_str(args, "scratch", "/tmp/c18-scratch"));
     let mut out = Out::create(arg_str(args, "out", "trace.ndjson"));
@@ -489,8 +589,17 @@ pub fn run(args: &Args) -> i32 {
         if bits >= 14 && bits <= 80 && c.n.digits()[0] % 2 == 1 {
             cfgs.push((1, true));
         }
-        for &(threads, dbl) in &cfgs {
+        // (threads, double, through the command-line program)
+        let mut cfgs: Vec<(usize, bool, bool)> = cfgs.iter().map(|&(t, d)| (t, d, false)).collect();
+        if !ymcls.is_empty() && bits <= 64 && (c.n.digits()[0] % 4 == 3 || bits > 16 || c.shape["kind"] == "suite") {
+            cfgs.push((1, false, true));
+            if bits > 32 {
+                cfgs.push((2, false, true));
+            }
+        }
+        for &(threads, dbl, cli) in &cfgs {
             let case = if dbl { format!("{}/t{}d", c.name, threads) } else { format!("{}/t{}", c.name, threads) };
+            let case = if cli { format!("{}/cli", case) } else { case };
             if let Some(o) = &only {
                 if *o != case {
                     continue;
@@ -501,8 +610,12 @@ pub fn run(args: &Args) -> i32 {
             let outdir = scratch.join(case.replace('/', "_"));
             let _ = std::fs::remove_dir_all(&outdir);
             // normal time: < 1 s up to 128 bits
-            let r = run_classgroup(c.n, threads, dbl, outdir.clone(), 900.0);
-            let base = json!({"case": case, "dd": dd, "d": dn(&c.n), "threads": threads, "bits": bits, "shape": c.shape});
+            let r = if cli {
+                run_classgroup_cli(&ymcls, c.n, threads, dbl, outdir.clone(), 900.0)
+            } else {
+                run_classgroup(c.n, threads, dbl, outdir.clone(), 900.0)
+            };
+            let base = json!({"case": case, "dd": dd, "d": dn(&c.n), "threads": threads, "bits": bits, "shape": c.shape, "cli": cli});
             let ro = match r {
                 Err(e) => {
                     // did not come back (or the harness thread itself failed): nothing to look at
